@@ -185,6 +185,31 @@ def run_eq(env, pack, rows, lang, simple, d=0, twin=False):
     return judge(doc, len(pre), len(pre) + len(eq), rows, lang, simple, plain, cm, twin)
 
 
+ML = {
+    # name: (prefix switching the language, language of the equation, main language option)
+    'select_ru': ('\\usepackage[english]{babel}\n\\selectlanguage{russian}\n', 'ru', 'en-GB'),
+    'pkg_de': ('\\usepackage[german]{babel}\n', 'de', 'en-GB'),
+    'cls_ru': ('\\documentclass[russian]{article}\\usepackage{babel}\n', 'ru', 'en-GB'),
+    'env_de': ('\\begin{otherlanguage}{german}\n', 'de', 'ru-RU'),
+    'back_to_main': ('\\selectlanguage{german}\nEins.\n\\selectlanguage{russian}\n', 'ru', 'ru-RU'),
+}
+
+
+def run_ml(name, rows, twin=False):
+    prefix, lang, main = ML[name]
+    eq = source('align', rows)
+    pre = prefix + 'Before\n'
+    doc = pre + eq + '\nAfter' + ('\n\\end{otherlanguage}' if 'otherlanguage' in prefix else '')
+    res, diags, err = yal.run_native(doc, yal.mkopts({'lang': main, 'pack': 'amsmath,babel'}), True)
+    if diags:
+        return 'C11 diagnostic %r for %r' % (diags, doc)
+    from vf.offrun import flatten
+    for lab, plain, cm in flatten(res):
+        if 'Before' in plain and 'After' in plain:
+            return judge(doc, len(pre), len(pre) + len(eq), rows, lang, False, plain, cm, twin)
+    return 'C11 equation of %r is not in one language part: %r' % (doc, [(l, p) for l, p, c in flatten(res)])
+
+
 def items(tier, seed):
     import random
     rnd = random.Random(seed)
@@ -204,6 +229,8 @@ def items(tier, seed):
                                 'simple': simple, 'tail': tail, 'cost': 2})
     for name in OFFDOCS:
         out.append({'h': 'off', 'name': name})
+    for name in ML:
+        out.append({'h': 'ml', 'name': name})
     for k in range(3):
         out.append({'h': 'body', 'k': k, 'L': 2 if tier == 'quick' else 3, 'cost': 5})
     out.append({'h': 'eq', 'shape': [2], 'env': 4, 'lang': 'en', 'simple': False, 'tail': [],
@@ -255,6 +282,24 @@ def build(item):
             if not (0 <= w['a'] < E) or not (0 <= w['b'] < E):
                 return None
             return run(w['a'], w['b'])
+        return prop, concrete
+    if item['h'] == 'ml':
+        E = NSYM
+
+        def runm(a, b):
+            return run_ml(item['name'], [[0, a], [b, 5]], twin)
+
+        def prop(a: int, b: int):
+            from vf import driver as D
+            if not (0 <= a < E) or not (0 <= b < E):
+                return D.SKIP
+            tab = list(range(E))
+            ka, kb = tab[a], tab[b]
+            with D.NoTracing():
+                return runm(int(ka), int(kb)) or True
+
+        def concrete(w):
+            return runm(w['a'], w['b']) if 0 <= w['a'] < E and 0 <= w['b'] < E else None
         return prop, concrete
     if item['h'] == 'off':
         env, pack, rows, lang, simple = OFFDOCS[item['name']]
